@@ -477,7 +477,14 @@ func checkC18(c any, r *Rec) error {
 		}
 		boundary = n >= len(words)-1
 	case "center", "ljust", "rjust":
-		s := in.Str()
+		// like Django's @stringfilter: the text of any input is what gets padded
+		s, isScalar := refPrintScalar(in)
+		if !isScalar {
+			return skipf("non-scalar input")
+		}
+		if in.K != "str" {
+			r.Class(f + ":non-string-input")
+		}
 		if !utf8.ValidString(s) {
 			return skipf("invalid UTF-8")
 		}
@@ -987,6 +994,14 @@ func genC18(t *rapid.T) *c18Case {
 		cs.Param = vInt(drawInt(t, -2, 9, "n"))
 	case "center", "ljust", "rjust":
 		cs.In = vStr(strings.ReplaceAll(genC18Text(t, "in", 12), "\n", "x"))
+		switch drawInt(t, 0, 9, "nonstring") {
+		case 0:
+			cs.In = vInt(pick(t, "ji", []int{0, 7, 42, -5, 123456}))
+		case 1:
+			cs.In = vF64(pick(t, "jf", []float64{0.5, -2.25, 10}))
+		case 2:
+			cs.In = vBool(drawBool(t, "jb"))
+		}
 		cs.Param = vInt(drawInt(t, -3, 20, "w"))
 		if drawInt(t, 0, 39, "huge") == 0 {
 			cs.Param = vInt(pick(t, "hw", []int{9999, 10000, 10001, 10002, 10012, 20000}))
@@ -1252,6 +1267,80 @@ var _ = register(&propSpec{
 	New:   func() any { return &c18WR{} },
 	Check: checkC18WR,
 })
+
+// widthratio over floats, including huge and tiny ones: the ratio is formed first (v/max stays
+// small when v and max are of the same magnitude), the reference is exact rational arithmetic
+type c18WRF struct {
+	V, Max, W float64
+	As        bool
+}
+
+var c18WRFloats = []float64{0, 0.5, 1.5, 2.25, 0.1, 3, 7, 10, 45, 175, 200, 100, -7, -2.5, 1e15, 1e300, 1e308, 1.5e308, 1e-300, 1e-308, 3e-308}
+
+func checkC18WRF(c any, r *Rec) error {
+	cs := c.(*c18WRF)
+	if cs.Max == 0 {
+		return skipf("max 0")
+	}
+	rv, rm, rw := new(big.Rat).SetFloat64(cs.V), new(big.Rat).SetFloat64(cs.Max), new(big.Rat).SetFloat64(cs.W)
+	if rv == nil || rm == nil || rw == nil {
+		return skipf("not finite")
+	}
+	// the documented formula forms v/max first: where that quotient leaves the float range the
+	// reference implementations do not produce a number either
+	if q := cs.V / cs.Max; math.IsInf(q, 0) || q == 0 && cs.V != 0 || q != 0 && math.Abs(q) < 1e-300 || math.IsInf(q*cs.W, 0) {
+		return skipf("quotient outside the float range")
+	}
+	exact := new(big.Rat).Mul(new(big.Rat).Quo(rv, rm), rw)
+	if new(big.Rat).Abs(exact).Cmp(big.NewRat(1e9, 1)) > 0 {
+		return skipf("result too large for the 1e-6 tie margin to cover float rounding")
+	}
+	// distance to the nearest tie (k + 1/2): float evaluation may land on either side there
+	twice := new(big.Rat).Mul(exact, big.NewRat(2, 1))
+	fl := new(big.Int).Div(twice.Num(), twice.Denom()) // floor(2x)
+	frac := new(big.Rat).Sub(twice, new(big.Rat).SetInt(fl))
+	if fl.Bit(0) == 1 && frac.Cmp(big.NewRat(1, 1000000)) < 0 || fl.Bit(0) == 0 && frac.Cmp(big.NewRat(999999, 1000000)) > 0 {
+		return skipf("tie or next to a tie")
+	}
+	half := new(big.Rat).Add(exact, big.NewRat(1, 2))
+	want := new(big.Int).Div(half.Num(), half.Denom()) // floor(x + 1/2)
+	src := "{% widthratio v m w %}"
+	if cs.As {
+		src = "{% widthratio v m w as q %}[{{ q }}]"
+	}
+	tpl, err := c18Set.FromString(src)
+	if err != nil {
+		return err
+	}
+	out, err := tpl.Execute(pongo2.Context{"v": cs.V, "m": cs.Max, "w": cs.W})
+	if err != nil {
+		return fmt.Errorf("widthratio %v %v %v: %v", cs.V, cs.Max, cs.W, err)
+	}
+	exp := want.String()
+	if cs.As {
+		exp = "[" + exp + "]"
+	}
+	if out != exp {
+		return fmt.Errorf("widthratio %v %v %v rendered %q, round-to-nearest of v/max*w is %s", cs.V, cs.Max, cs.W, out, exp)
+	}
+	if math.Abs(cs.V) >= 1e300 || math.Abs(cs.V) <= 1e-300 && cs.V != 0 || cs.V < 0 {
+		r.Class("huge/tiny/negative")
+	}
+	r.NonTrivial(fmt.Sprint(*cs))
+	return nil
+}
+
+var _ = register(&propSpec{
+	ID:   "C18.widthratiof",
+	Rule: "widthratio v max w (also with 'as') over float arguments from a pool with fractions, negatives, 1e15, 1e300, 1e308, 1e-300, 1e-308; compared with round-to-nearest of the exact rational v/max*w; skipped: max = 0, a quotient v/max (or its product with w) outside the float range, results beyond 1e9 (where float rounding may cross a tie), inputs within 1e-6 of a tie. Non-trivial: every evaluated case.",
+	Gen: func(t *rapid.T) any {
+		return &c18WRF{V: pick(t, "v", c18WRFloats), Max: pick(t, "max", c18WRFloats), W: pick(t, "w", c18WRFloats), As: drawBool(t, "as")}
+	},
+	New:   func() any { return &c18WRF{} },
+	Check: checkC18WRF,
+})
+
+func TestC18WidthratioFloat(t *testing.T) { runProp(t, "C18.widthratiof") }
 
 func TestC18Widthratio(t *testing.T) { runProp(t, "C18.widthratio") }
 
